@@ -145,6 +145,20 @@ func c08edits(doc *jmut.Node) []c08edit {
 				if d.Replace(p, v) {
 					out = append(out, c08edit{"alter-" + kind, p, d})
 				}
+				if kind == "string" && len(x.S) > 2 {
+					// also change the last character, so that both ends of any special character are edited
+					b := []rune(x.S)
+					last := b[len(b)-1]
+					if last == 'z' {
+						b[len(b)-1] = 'y'
+					} else {
+						b[len(b)-1] = 'z'
+					}
+					d2 := doc.Clone()
+					if d2.Replace(p, jmut.S(string(b))) {
+						out = append(out, c08edit{"alter-string-tail", p, d2})
+					}
+				}
 			}
 		case jmut.Arr:
 			// swap the first two elements that differ
@@ -226,6 +240,40 @@ func runC08(c *Ctx) {
 				sel = append(sel, bigByRegime[r])
 			}
 		}
+	}
+	// envelopes whose text fields carry characters that need care in canonical JSON
+	hostile := []string{"Pay in 30 days\u2028to account", "first\u2029second", "tab\there \"quoted\" back\\slash", "emoji 😀 tail", "ctl\u0001\u001fend", "é ñ ü ß 日本", "<b>&amp;</b>", "del\u007f\u0080nbsp\u00a0x", "zw\u200bj\ufeffbom", "astral 𐀀 \U0010FFFF end", "a/b\\/c", "line\nbreak\r\nend"}
+	for hi, it := range sel {
+		if it.Type != "bill/invoice" || hi > 6 {
+			continue
+		}
+		n, err := jmut.Parse(it.Data)
+		if err != nil {
+			continue
+		}
+		doc := n.Get("doc")
+		notes := jmut.Ar()
+		meta := jmut.O()
+		for k, h := range hostile {
+			var txt string
+			if json.Unmarshal([]byte(`"`+h+`"`), &txt) != nil {
+				txt = h
+			}
+			notes.A = append(notes.A, jmut.O(jmut.Member{Key: "key", Val: jmut.S("general")}, jmut.Member{Key: "text", Val: jmut.S(txt)}))
+			meta.Set(fmt.Sprintf("k%d", k), jmut.S(txt))
+		}
+		doc.Set("notes", notes)
+		doc.Set("meta", meta)
+		env, err := gx.ParseEnvelope(n.Bytes())
+		if err != nil {
+			continue
+		}
+		if p, _ := Safely(func() { err = env.Calculate() }); p != nil || err != nil {
+			continue
+		}
+		b, _ := json.Marshal(env)
+		sel = append(sel, corpus.Item{Path: it.Path, Rel: it.Rel + "#hostile-strings", Data: b, Type: it.Type, Regime: it.Regime})
+		break
 	}
 	c.R.Set("envelopes", len(sel))
 
